@@ -470,9 +470,12 @@ void ep8_mul_basic(ep8_t r, const ep8_t p, const bn_t k) {
 void ep8_mul_slide(ep8_t r, const ep8_t p, const bn_t k) {
 	ep8_t t[1 << (RLC_WIDTH - 1)], q;
 	uint8_t win[RLC_FP_BITS + 1];
+	bn_t _m, _n;
 	size_t l;
 
 	ep8_null(q);
+	bn_null(_m);
+	bn_null(_n);
 
 	if (bn_is_zero(k) || ep8_is_infty(p)) {
 		ep8_set_infty(r);
@@ -486,6 +489,12 @@ void ep8_mul_slide(ep8_t r, const ep8_t p, const bn_t k) {
 		}
 
 		ep8_new(q);
+		bn_new(_m);
+		bn_new(_n);
+
+		/* The window buffer only covers the bit length of the order. */
+		ep8_curve_get_ord(_n);
+		bn_mod(_m, k, _n);
 
 		ep8_copy(t[0], p);
 		ep8_dbl(q, p);
@@ -505,7 +514,7 @@ void ep8_mul_slide(ep8_t r, const ep8_t p, const bn_t k) {
 
 		ep8_set_infty(q);
 		l = RLC_FP_BITS + 1;
-		bn_rec_slw(win, &l, k, RLC_WIDTH);
+		bn_rec_slw(win, &l, _m, RLC_WIDTH);
 		for (size_t i = 0; i < l; i++) {
 			if (win[i] == 0) {
 				ep8_dbl(q, q);
@@ -518,9 +527,6 @@ void ep8_mul_slide(ep8_t r, const ep8_t p, const bn_t k) {
 		}
 
 		ep8_norm(r, q);
-		if (bn_sign(k) == RLC_NEG) {
-			ep8_neg(r, r);
-		}
 	}
 	RLC_CATCH_ANY {
 		RLC_THROW(ERR_CAUGHT);
@@ -530,6 +536,8 @@ void ep8_mul_slide(ep8_t r, const ep8_t p, const bn_t k) {
 			ep8_free(t[i]);
 		}
 		ep8_free(q);
+		bn_free(_m);
+		bn_free(_n);
 	}
 }
 
